@@ -79,6 +79,7 @@ func fInv(a *fterm) *fterm {
 	return &fterm{op: "inv", args: []*fterm{a}}
 }
 
+// fSub: a - b as the sum a + (-b), so that a chain of subtractions is one flat, sorted sum whatever its order.
 func fSub(a, b *fterm) *fterm {
 	if b.op == "0" {
 		return a
@@ -86,7 +87,7 @@ func fSub(a, b *fterm) *fterm {
 	if a.op == "0" {
 		return fNeg(b)
 	}
-	return &fterm{op: "sub", args: []*fterm{a, b}}
+	return fComm("add", fZero, a, fNeg(b))
 }
 
 func fComm(op string, unit *fterm, a, b *fterm) *fterm {
@@ -148,6 +149,9 @@ type fslice struct {
 // element from it yields an opaque constant named by the path.
 type fsym struct{ path string }
 
+// ferr: a non-nil error value whose content does not matter.
+type ferr struct{}
+
 type fclosure struct {
 	fn   *ssa.Function
 	bind []any
@@ -161,6 +165,7 @@ type folder struct {
 	globals    map[*ssa.Global]any
 	symGlobals bool                                                          // package variables of dependencies are opaque constants
 	enterDeps  bool                                                          // functions of dependencies may be folded too
+	generic    bool                                                          // symbols stand for generic values: neither zero nor one
 	opaque     func(call *ssa.Call, f *ssa.Function, args []any) (any, bool) // module functions not to be entered
 }
 
@@ -448,32 +453,36 @@ func (f *folder) call(fn *ssa.Function, args []any, bind []any) any {
 				default:
 					f.fail("%s: unsupported operation", x)
 				}
-				// unsigned types never go negative in this code; a negative unsigned result means wrap-around
-				if bt, isB := x.Type().Underlying().(*types.Basic); isB && bt.Info()&types.IsUnsigned != 0 {
-					if k, isK := env[x].(int64); isK && k < 0 {
-						f.fail("%s: unsigned arithmetic wraps around", x)
+				// integer results live in their type's width: narrower types wrap exactly as the machine does; a
+				// 64-bit unsigned value beyond the folder's own range stops the fold
+				if bt, isB := x.Type().Underlying().(*types.Basic); isB && bt.Info()&types.IsInteger != 0 {
+					if k, isK := env[x].(int64); isK {
+						w, ok := wrapInt(k, bt)
+						if !ok {
+							f.fail("%s: 64-bit unsigned arithmetic wraps around", x)
+						}
+						env[x] = w
 					}
 				}
 			case *ssa.Convert:
 				v := get(x.X)
 				if k, ok := v.(int64); ok {
 					if bt, isB := x.Type().Underlying().(*types.Basic); isB && bt.Info()&types.IsInteger != 0 {
-						// narrowing must not lose bits
-						if sz := types.SizesFor("gc", "amd64").Sizeof(bt); sz < 8 {
-							lim := int64(1) << (uint(sz) * 8)
-							if bt.Info()&types.IsUnsigned == 0 {
-								lim >>= 1
-							}
-							if k >= lim || k < -lim {
-								f.fail("%s: conversion truncates %d", x, k)
-							}
+						// a conversion to a narrower type keeps the low bits, as the machine does
+						w, ok := wrapInt(k, bt)
+						if !ok {
+							f.fail("%s: conversion of %d to a 64-bit unsigned type", x, k)
 						}
-						env[x] = k
+						env[x] = w
 						break
 					}
 				}
 				f.fail("%s: unsupported conversion", x)
 			case *ssa.ChangeType:
+				env[x] = get(x.X)
+			case *ssa.MakeInterface:
+				env[x] = get(x.X)
+			case *ssa.ChangeInterface:
 				env[x] = get(x.X)
 			case *ssa.IndexAddr:
 				if sy, isSym := get(x.X).(fsym); isSym {
@@ -687,6 +696,22 @@ func (f *folder) doCall(x *ssa.Call, args []any, get func(ssa.Value) any) any {
 			}
 			return t
 		}
+		// predicates: decided for 0 and 1; for any other term only under the generic-point reading (a symbol
+		// stands for a value that is neither)
+		switch callee.Name() {
+		case "IsZero", "IsOne":
+			t, isT := recv.o.slots[recv.i].(*fterm)
+			if !isT {
+				f.fail("%s: receiver does not hold a field element", x)
+			}
+			if t.op == "0" || t.op == "1" {
+				return (callee.Name() == "IsZero") == (t.op == "0")
+			}
+			if f.generic {
+				return false
+			}
+			f.fail("%s: %s of a symbolic value", x, callee.Name())
+		}
 		var r *fterm
 		switch callee.Name() {
 		case "SetZero":
@@ -734,8 +759,10 @@ func (f *folder) doCall(x *ssa.Call, args []any, get func(ssa.Value) any) any {
 	switch {
 	case core.IsFunc(callee, "bandersnatch/fr", "Zero") && len(args) == 0:
 		return fZero
-	case core.IsFunc(callee, "bandersnatch/fr", "One") && len(args) == 0:
+	case core.IsFunc(callee, "bandersnatch/fr", "One") && len(args) == 0, core.IsFunc(callee, "bandersnatch/fp", "One") && len(args) == 0:
 		return fOne
+	case core.IsFunc(callee, "bandersnatch/fp", "Zero") && len(args) == 0:
+		return fZero
 	case core.IsFunc(callee, "bandersnatch/fr", "NewElement") && len(args) == 1:
 		if k, ok := args[0].(int64); ok {
 			return fU(k)
@@ -758,6 +785,12 @@ func (f *folder) doCall(x *ssa.Call, args []any, get func(ssa.Value) any) any {
 	if f.opaque != nil {
 		if r, ok := f.opaque(x, callee, args); ok {
 			return r
+		}
+	}
+	if callee.Pkg != nil {
+		switch callee.Pkg.Pkg.Path() + "." + callee.Name() {
+		case "errors.New", "fmt.Errorf":
+			return ferr{} // some non-nil error
 		}
 	}
 	if f.symGlobals && core.IsMethod(callee, "sync", "Once", "Do") {
@@ -832,4 +865,24 @@ func (f *folder) global(g *ssa.Global) any {
 	}
 	f.globals[g] = p
 	return p
+}
+
+// wrapInt: k as a value of the integer type bt (two's complement, the type's width on amd64). ok=false for a negative
+// value of a 64-bit unsigned type, which the folder's int64 cannot represent.
+func wrapInt(k int64, bt *types.Basic) (int64, bool) {
+	sz := types.SizesFor("gc", "amd64").Sizeof(bt)
+	unsigned := bt.Info()&types.IsUnsigned != 0
+	if sz >= 8 {
+		if unsigned && k < 0 {
+			return 0, false
+		}
+		return k, true
+	}
+	bits := uint(sz) * 8
+	mask := int64(1)<<bits - 1
+	k &= mask
+	if !unsigned && k>>(bits-1) != 0 {
+		k -= int64(1) << bits
+	}
+	return k, true
 }
